@@ -120,7 +120,13 @@ pub fn record(pool_paths: &str, w: &mut dyn Write, seed: u64, n_events: usize) {
             // decided by the validator (ValidExact.tla), not here
             let rp = random_polygon(&mut rng);
             let mi2 = if k % 2 == 0 { Some(&maps[rng.gen_range(0..maps.len())]) } else { None };
-            emitted += exec_all(w, &MultiPolygon::new(vec![rp]), 0, true, mi2, k, k % 6 == 0, true);
+            // a candidate that geo's own validation rejects is not executed: on an invalid polygon a triangulation may do anything,
+            // including not returning (seen: a hole partly outside the shell), and the property speaks about valid input only.  This
+            // is a filter on what is EXECUTED; whether an executed candidate is in the domain is still decided by ValidExact.tla
+            let geo_valid = { use geo::Validation; matches!(guard(|| rp.is_valid()), Ok(true)) };
+            if geo_valid {
+                emitted += exec_all(w, &MultiPolygon::new(vec![rp]), 0, true, mi2, k, k % 6 == 0, true);
+            }
         }
     }
     w.flush().unwrap();
